@@ -120,7 +120,7 @@ def execute(case):
     res.backend = case['backend']
     cell_probes(res, w)
     with store(short_seed=case['short_seed']) as st, lib.knobs(debug_log=case['debug_log']):
-        real = case['backend'] in ('realpath', 'realfile', 'rawfile')
+        real = case['backend'] in ('realpath', 'realfile', 'rawfile', 'gzipfile')
         st.put('w.tdms', w.data)
         src = st.source(case['backend'], 'w.tdms', as_pathlib=case.get('pathlib', False))
         try:
